@@ -385,6 +385,19 @@ mod deltae {
             let d_s = sync.delta(Cursor::new(source), &sig_s).map_err(|e| format!("sync delta: {e}"))?;
             let d_a = rt.block_on(asy.delta(source, &sig_a)).map_err(|e| format!("async delta: {e}"))?;
             if d_s != d_a { v.push("delta differs between sync and async engine".into()); }
+            if r <= 1024 {
+                // the same bytes arriving in short reads (sizes that are no multiple of the block size): same signature, same delta
+                for chunk in [r / 3 + 1, r + 5] {
+                    let sig_s2 = sync.signature(ShortReads { data: basis, pos: 0, chunk }).map_err(|e| format!("sync signature (short reads): {e}"))?;
+                    let sig_a2 = rt.block_on(asy.signature(ShortAsync { data: basis, pos: 0, chunk })).map_err(|e| format!("async signature (short reads): {e}"))?;
+                    if sig_s2 != sig_s { v.push(format!("sync signature depends on how the bytes arrive (reads of <= {chunk})")); }
+                    if sig_a2 != sig_s { v.push(format!("async signature depends on how the bytes arrive (reads of <= {chunk})")); }
+                    let d_s2 = sync.delta(ShortReads { data: source, pos: 0, chunk }, &sig_s).map_err(|e| format!("sync delta (short reads): {e}"))?;
+                    let d_a2 = rt.block_on(asy.delta(ShortAsync { data: source, pos: 0, chunk }, &sig_s)).map_err(|e| format!("async delta (short reads): {e}"))?;
+                    if d_s2 != d_s { v.push(format!("sync delta depends on how the source bytes arrive (reads of <= {chunk})")); }
+                    if d_a2 != d_s { v.push(format!("async delta depends on how the source bytes arrive (reads of <= {chunk})")); }
+                }
+            }
             for (name, d) in [("sync", &d_s), ("async", &d_a)] {
                 if d.source_size != source.len() as u64 { v.push(format!("{name}: source_size {} != {}", d.source_size, source.len())); }
                 if d.checksum.as_bytes() != blake3::hash(source).as_bytes() { v.push(format!("{name}: checksum is not the source's BLAKE3")); }
@@ -610,6 +623,14 @@ mod deltal {
             let d = sync.delta(Cursor::new(source), &sig).map_err(|e| e.to_string())?;
             let d_a = rt.block_on(asy.delta(source, &sig)).map_err(|e| e.to_string())?;
             agree &= d == d_a;
+            if valid_r {
+                // ... and however the bytes arrive (short reads of a size that is no multiple of the block size)
+                let chunk = n + n / 3 + 1;
+                agree &= rt.block_on(asy.signature(ShortAsync { data: basis, pos: 0, chunk })).map_err(|e| e.to_string())? == sig;
+                agree &= sync.signature(ShortReads { data: basis, pos: 0, chunk }).map_err(|e| e.to_string())? == sig;
+                agree &= rt.block_on(asy.delta(ShortAsync { data: source, pos: 0, chunk: 4099 }, &sig)).map_err(|e| e.to_string())? == d;
+                agree &= sync.delta(ShortReads { data: source, pos: 0, chunk: 4099 }, &sig).map_err(|e| e.to_string())? == d;
+            }
             let mut at = 0usize;
             let mut lit_ok = true;
             let mut ops = vec![];
@@ -738,6 +759,35 @@ fn cmd_delta_large(args: &[String]) {
             let mut src = basis.clone();
             src.extend_from_slice(&vec![0u8; 2 * r]);
             jobs.push(("zero tail extended".into(), basis, src, r, true, false, -1));
+        }
+        // blocks whose byte sum is a multiple of 65521 (the all-zero block; a block tuned to sum to exactly m * 65521), met by a
+        // window that has been SLID onto them: a digest that is right only for freshly computed windows shows here
+        {
+            let d = deltal::distinct_blocks(&mut rng, 2, r, 0);
+            let mut tuned: Vec<u8> = (0..r).map(|_| rng.gen_range(1..=254u8)).collect();
+            let sum: i64 = tuned.iter().map(|&b| i64::from(b)).sum();
+            let target = 65521 * ((sum + 32760) / 65521).max(1);
+            let mut diff = target - sum;
+            let mut i = 0usize;
+            while diff != 0 {
+                let b = i64::from(tuned[i % r]);
+                let step = if diff > 0 { diff.min(254 - b) } else { diff.max(1 - b) };
+                tuned[i % r] = (b + step) as u8;
+                diff -= step;
+                i += 1;
+            }
+            for (label, special) in [("zero block reached by sliding", vec![0u8; r]), ("block with byte sum m*65521 reached by sliding", tuned)] {
+                let mut basis = d[..r].to_vec();
+                *basis.last_mut().unwrap() |= 1;
+                basis.extend_from_slice(&special);
+                basis.extend_from_slice(&d[r..]);
+                basis[2 * r] |= 1;
+                for &k in &[1usize, r / 3 + 1, r + 7] {
+                    let mut src: Vec<u8> = (0..k).map(|_| rng.gen_range(1..=255u8)).collect();
+                    src.extend_from_slice(&basis[r..]);
+                    jobs.push((format!("{label}, after {k} new bytes"), basis.clone(), src, r, true, false, -1));
+                }
+            }
         }
     }
     // library level: every positive block size
@@ -1060,6 +1110,18 @@ mod codecx {
             Ok(Err(CopiaError::Io(_))) => "Io",
             Ok(Err(_)) => "OtherError",
         }
+    }
+}
+
+/// The same for the asynchronous engine (a socket, a pipe, a chained reader: short reads of any size before the end).
+struct ShortAsync<'a> { data: &'a [u8], pos: usize, chunk: usize }
+impl tokio::io::AsyncRead for ShortAsync<'_> {
+    fn poll_read(mut self: std::pin::Pin<&mut Self>, _cx: &mut std::task::Context<'_>, buf: &mut tokio::io::ReadBuf<'_>) -> std::task::Poll<std::io::Result<()>> {
+        let n = buf.remaining().min(self.chunk).min(self.data.len() - self.pos);
+        let at = self.pos;
+        buf.put_slice(&self.data[at..at + n]);
+        self.pos += n;
+        std::task::Poll::Ready(Ok(()))
     }
 }
 
